@@ -247,7 +247,7 @@ var rR6 = RuleRef{Name: "R6", Doc: "atomic consistency: a field whose address is
 				n++
 				racy := false
 				backslice(ms.Len, func(v ssa.Value) bool {
-					if fa, ok := v.(*ssa.FieldAddr); ok && fieldName(fa) == "count" {
+					if fa, ok := v.(*ssa.FieldAddr); ok && namedOf(fa.X.Type()) == "ConcurrentMap" && c.isKeyCounterField(fa) {
 						racy = true
 					}
 					if call, ok := v.(*ssa.Call); ok {
@@ -802,3 +802,14 @@ var rR13p = RuleRef{Name: "R13p", Doc: "reply encoders return freshly allocated 
 }}
 
 var _ = types.Typ
+
+// isKeyCounterField: fa addresses the field of ConcurrentMap that counts the keys (the one handed to sync/atomic).
+func (c *C) isKeyCounterField(fa *ssa.FieldAddr) bool {
+	c.ensureCounterPairs()
+	for _, p := range counterPairs {
+		if p.cntType == "ConcurrentMap" {
+			return fieldName(fa) == p.cntField
+		}
+	}
+	return false
+}
